@@ -171,7 +171,8 @@ Theorem m2m_step u o s : wf_m2m os s -> op_ok_m2m os s o ->
 Proof.
   intros W OK s'. destruct W as [NO LE ME TG].
   assert (MEMOS : forall ow, In ow os -> memz ow os = true) by (intros; apply memz_In; assumption).
-  destruct o as [vs|vs|ts|]; cbn [assoc_step do_append] in s'.
+  destruct o as [vs|vs|ts| |]; cbn [assoc_step do_append] in s'.
+  5:{ split; [constructor; assumption|]. split; [intros i ow Ho t; reflexivity | intros x Hx; exact Hx]. }
   - (* Append *)
     cbn in OK. rename OK into Lv.
     pose proof (save_assoc_m2m false vs s Lv LE NO) as SA. cbn zeta in SA. fold s' in SA.
